@@ -609,24 +609,24 @@ static std::string gen_component(Builder &b, int budget) {
   int kind = ri(0, 11);
   switch (kind) {
     case 0:
-      b.chain(-1, ri(1, std::min(budget, 12)));
+      b.chain(-1, ri(1, std::min(budget, 40)));
       return "chain";
     case 1: {
       if (budget < 3) {
         b.chain(-1, budget);
         return "chain";
       }
-      b.ring(ri(3, std::min(budget, 12)));
+      b.ring(ri(3, std::min(budget, 24)));
       return "ring";
     }
     case 2: {  // star
       int c = b.add();
-      int arms = ri(1, std::max(1, std::min(budget - 1, 8)));
+      int arms = ri(1, std::max(1, std::min(budget - 1, 12)));
       for (int i = 0; i < arms; ++i) b.edge(c, b.add());
       return "star";
     }
     case 3: {  // random tree
-      int m = ri(1, std::min(budget, 20));
+      int m = ri(1, std::min(budget, 40));
       int first = b.add();
       for (int i = 1; i < m; ++i) {
         int v = b.add();
